@@ -13,7 +13,7 @@ BASE_CONSTS = {
     "Fam": "<- FamOps", "LitPool": "<- LitsSmall", "Names": "<- NamesTop", "ModNames": "<- NamesMod",
     "FldNames": "<- Flds3", "KeyPool": "<- Keys", "SigPool": "<- Sigs", "TplPool": "<- Tpls",
     "SinglePool": "<- Singles", "BinOps": "<- OpsAll", "CastTys": "<- AllCasts", "TyNames": "<- TyAll",
-    "Prelude": "<- NoPrelude", "MaxD": "3", "MaxN": "3", "MaxStk": "2", "MaxStmts": "1", "MaxModStmts": "1", "MaxCtx": "1", "Ill0": "1", "RunVM": "FALSE",
+    "ConPool": "<- NoCons", "Prelude": "<- NoPrelude", "MaxD": "3", "MaxN": "3", "MaxStk": "2", "MaxStmts": "1", "MaxModStmts": "1", "MaxCtx": "1", "Ill0": "1", "RunVM": "FALSE",
 }
 INVS = ["Agreement", "NoPanicAtEnd", "CleanAtEnd", "NoFuel", "PrefixStable", "Emit"]
 
@@ -64,6 +64,8 @@ def spec_op(o):
         return (op, o["hook"])
     if op == "PANIC":
         return (op, o["site"])
+    if op == "BuildConstraint":
+        return (op, tuple(o["arms"]))
     return (op,)
 
 
@@ -79,6 +81,8 @@ def impl_op(o):
         return (op, o["ty"])
     if op == "Runtime":
         return (op, o["hook"])
+    if op == "BuildConstraint":
+        return (op, tuple(o["arms"]))
     return (op,)
 
 
@@ -242,7 +246,7 @@ def replay_prefixes(h, case):
 # ---------------------------------------------------------------------------
 
 MODELLED_HOOKS = {"Map", "Filter", "Reduce", "Range", "Trace", "Regex"}
-UNMODELLED_OPS = {"BuildConstraint", "CheckConstraint", "JumpIfTrue", "JumpIfFalse", "SafeIndex"}
+UNMODELLED_OPS = {"JumpIfTrue", "JumpIfFalse", "SafeIndex"}
 
 
 def _chars(s):
@@ -283,6 +287,8 @@ def tla_code(ops):
             r["jp"] = o["jp"]
         elif op == "Cast":
             r["ty"] = o["ty"]
+        elif op == "BuildConstraint":
+            r["arms"] = list(o["arms"])
         elif op == "Runtime":
             if o["hook"] not in MODELLED_HOOKS:
                 raise ValueError("hook outside the model: " + o["hook"])
